@@ -8,6 +8,7 @@ open ShuttleModel.C16
 #print axioms bits_roundtrip_steps
 #print axioms bits_roundtrip_bytes
 #print axioms roundtrip
+#print axioms serialize_injective
 #print axioms roundtrip_ws
 #print axioms serialize_filter
 #print axioms roundtrip_ws_insert
